@@ -392,3 +392,237 @@ Theorem trunc_at_top : forall D r s, runs (init D) s -> r <= length (s_data s) <
 Proof.
   intros D r s H Hr Ht. destruct (trunc_exact D r s H) as [T1 _]; [lia|]. rewrite T1 by lia. now apply finish_top.
 Qed.
+
+(* ------------------------------------------------------------------ the tape only grows at top level *)
+(* From a top-level key position with tape t1 on, no step of the reference machine touches the
+   first |t1| tokens: containers opened later have an index >= |t1| and so have the indices stored
+   in their end slots (0 or >= |t1|), the only slots [upd] ever writes to; pop / mixed-container
+   insertion / the empty-objects truncation only reach tokens pushed after t1. *)
+Definition okslot (b : nat) (x : tok) : Prop :=
+  match x with TArray g | TObject g => g = 0 \/ b <= g | _ => True end.
+
+Definition ext_ok (t1 t : tape) : Prop :=
+  exists ext, t = t1 ++ ext /\ Forall (okslot (length t1)) ext.
+
+Lemma okslot_scalar : forall b x, is_scalar x = true -> okslot b x.
+Proof. intros b x H. destruct x; cbn in *; auto; discriminate. Qed.
+
+Lemma ext_len : forall t1 t, ext_ok t1 t -> length t1 <= length t.
+Proof. intros t1 t (ext & -> & _). rewrite app_length. lia. Qed.
+
+Lemma ext_push : forall t1 t x, ext_ok t1 t -> okslot (length t1) x -> ext_ok t1 (push t x).
+Proof.
+  intros t1 t x (ext & -> & F) Hx. exists (ext ++ [x]). split; [unfold push; now rewrite app_assoc|].
+  apply Forall_app. split; auto.
+Qed.
+
+Lemma upd_app_ge : forall (t1 ext : tape) i c, length t1 <= i -> upd (t1 ++ ext) i c = t1 ++ upd ext (i - length t1) c.
+Proof.
+  induction t1 as [|a t1 IH]; intros ext i c H; cbn [app length] in *.
+  - now rewrite Nat.sub_0_r.
+  - destruct i; [lia|]. cbn [upd]. rewrite IH by lia. reflexivity.
+Qed.
+
+Lemma Forall_upd : forall (P : tok -> Prop) l i c, Forall P l -> P c -> Forall P (upd l i c).
+Proof.
+  induction l as [|a l IH]; intros i c F Hc; cbn [upd]; auto.
+  inversion F; subst. destruct i; constructor; auto.
+Qed.
+
+Lemma ext_upd : forall t1 t i c, ext_ok t1 t -> length t1 <= i -> okslot (length t1) c -> ext_ok t1 (upd t i c).
+Proof.
+  intros t1 t i c (ext & -> & F) Hi Hc. exists (upd ext (i - length t1) c). split; [now apply upd_app_ge|].
+  now apply Forall_upd.
+Qed.
+
+Lemma ext_unsnoc : forall t1 t x, ext_ok t1 (t ++ [x]) -> length t1 <= length t ->
+  ext_ok t1 t /\ okslot (length t1) x.
+Proof.
+  intros t1 t x (ext & E & F) Hl. destruct (snoc_case ext) as [->|(ext' & y & ->)].
+  - rewrite app_nil_r in E. subst t1. rewrite app_length in Hl. cbn in Hl. lia.
+  - rewrite app_assoc in E. apply app_inj_tail in E. destruct E as [-> ->].
+    apply Forall_app in F. destruct F as [F1 F2]. split; [exists ext'; auto|]. now inversion F2.
+Qed.
+
+Lemma Forall_firstn' : forall (P : tok -> Prop) n l, Forall P l -> Forall P (firstn n l).
+Proof. induction n; intros l F; cbn; [constructor|]. destruct l; auto. inversion F; subst. constructor; auto. Qed.
+
+Lemma ext_firstn : forall t1 t n, ext_ok t1 t -> length t1 <= n -> ext_ok t1 (firstn n t).
+Proof.
+  intros t1 t n (ext & -> & F) Hn. exists (firstn (n - length t1) ext). split; [|now apply Forall_firstn'].
+  rewrite firstn_app, firstn_all2 by lia. reflexivity.
+Qed.
+
+Lemma ext_nth : forall t1 t i x, ext_ok t1 t -> length t1 <= i -> nth_error t i = Some x -> okslot (length t1) x.
+Proof.
+  intros t1 t i x (ext & -> & F) Hi Hn. rewrite nth_error_app2 in Hn by lia.
+  apply nth_error_In in Hn. rewrite Forall_forall in F. auto.
+Qed.
+
+Definition lenreq (t1 : tape) (ps : pstate) (t : tape) : Prop :=
+  match ps with
+  | KeyValueSeparator => length t1 + 1 <= length t
+  | ObjectToArray => length t1 + 2 <= length t
+  | _ => True
+  end.
+
+Definition grows (t1 : tape) (s : st) : Prop :=
+  ext_ok t1 (s_tape s) /\ (s_par s = 0 \/ length t1 <= s_par s) /\ lenreq t1 (s_ps s) (s_tape s).
+
+Lemma push_next_grows : forall t1 ps t v, ext_ok t1 t -> lenreq t1 ps t -> okslot (length t1) v -> ps <> ObjectToArray ->
+  ext_ok t1 (push t v) /\ lenreq t1 (next_tbl ps) (push t v).
+Proof.
+  intros t1 ps t v He Hl Hv Hne. split; [now apply ext_push|].
+  pose proof (ext_len _ _ He). destruct ps; cbn in *; auto; try congruence; rewrite push_length; lia.
+Qed.
+
+Lemma push_end_grows : forall t1 par t ps' g t', open_inv par t -> ext_ok t1 t -> (par = 0 \/ length t1 <= par) ->
+  push_end par t = Ok (ps', g, t') ->
+  ext_ok t1 t' /\ (g = 0 \/ length t1 <= g) /\ (ps' = Key \/ ps' = ArrayValue).
+Proof.
+  intros t1 par t ps' g t' Ho He Hp H. unfold push_end in H.
+  destruct (nth_error t par) as [c|] eqn:En; [|discriminate].
+  assert (K : forall c' g0, container_end c = Some g0 -> okslot (length t1) c' ->
+              push_end_fin c' g0 par t = Ok (ps', g, t') ->
+              ext_ok t1 t' /\ (g = 0 \/ length t1 <= g) /\ (ps' = Key \/ ps' = ArrayValue)).
+  { intros c' g0 Hc Hc' Hf.
+    assert (Hp0 : par <> 0) by (eapply open_inv_parent_not_zero; eauto).
+    assert (Hb : length t1 <= par) by (destruct Hp; [congruence|auto]).
+    pose proof (ext_nth _ _ _ _ He Hb En) as Hs.
+    assert (Hg : g0 = 0 \/ length t1 <= g0) by (destruct c; cbn in Hc; inversion Hc; subst; exact Hs).
+    unfold push_end_fin in Hf.
+    assert (He' : ext_ok t1 (push (upd t par c') (TEnd par))) by (apply ext_push; [now apply ext_upd|exact I]).
+    destruct (nth_error (push (upd t par c') (TEnd par)) g0) as [x|]; [|discriminate].
+    destruct x; inversion Hf; subst; auto. }
+  pose proof (ext_len _ _ He).
+  destruct c; try discriminate; eapply K; eauto; try reflexivity; cbn; auto.
+Qed.
+
+Local Opaque firstn.
+
+Lemma slow_grows : forall t1 d id ps par t s',
+  open_inv par t -> st_ok ps par t ->
+  ext_ok t1 t -> (par = 0 \/ length t1 <= par) -> lenreq t1 ps t ->
+  slow false d id ps par t = Ok s' -> grows t1 s'.
+Proof.
+  intros t1 d id ps0 par t0 s' Ho0 Hs0 He0 Hp Hl0 H. unfold slow in H.
+  assert (exists ps t, (match ps0 with
+                        | ObjectToArray => do t' <- mixed_insert2 t0; Ok (ArrayValueMixed, t')
+                        | _ => Ok (ps0, t0) end) = Ok (ps, t) /\ open_inv par t /\ st_ok ps par t /\ ps <> ObjectToArray
+                       /\ ext_ok t1 t /\ lenreq t1 ps t)
+    as (ps & t & E & Ho & Hs & Hne & He & Hl).
+  { destruct ps0; try (eexists _, t0; split; [reflexivity|]; split; [assumption|]; split; [assumption|];
+                       split; [discriminate|]; split; assumption).
+    cbn in Hs0. destruct (mixed_insert2 t0) as [tm| | | |] eqn:Em; try discriminate.
+    destruct (mixed_insert2_inv _ _ _ Ho0 Hs0 Em). exists ArrayValueMixed, tm.
+    split; [reflexivity|]. repeat split; auto; try discriminate.
+    destruct Hs0 as (tt & x & y & -> & Hx & Hy & _). cbn in Hl0. rewrite app_length in Hl0. cbn in Hl0.
+    change (tt ++ [x; y]) with (tt ++ [x] ++ [y]) in *. rewrite app_assoc in *.
+    unfold mixed_insert2 in Em. rewrite !pop_snoc in Em. inversion Em; subst.
+    destruct (ext_unsnoc _ _ _ He0) as [He1 Hy']; [rewrite app_length; cbn; lia|].
+    destruct (ext_unsnoc _ _ _ He1) as [He2 Hx']; [lia|].
+    repeat apply ext_push; auto. exact I. }
+  rewrite E in H. cbn [obind] in H. clear E Ho0 Hs0 He0 Hl0.
+  assert (Hsc : forall k, scalar_arm k d ps par t = Ok s' -> grows t1 s').
+  { intros k Hk. unfold scalar_arm in Hk.
+    destruct (read_scalar k d) as [[v r]| | | |] eqn:Er; try discriminate. cbn [obind] in Hk.
+    rewrite next_state_ok in Hk. cbn [obind] in Hk. inversion Hk; subst.
+    apply read_scalar_is_scalar in Er. unfold grows; cbn [s_tape s_par s_ps].
+    destruct (push_next_grows t1 ps t v He Hl (okslot_scalar _ _ Er) Hne). auto. }
+  assert (Htk : (do ps' <- next_state ps; Ok (mkst d ps' par (push t (TToken id)))) = Ok s' -> grows t1 s').
+  { rewrite next_state_ok. cbn [obind]. intro Hk. inversion Hk; subst. unfold grows; cbn [s_tape s_par s_ps].
+    destruct (push_next_grows t1 ps t (TToken id) He Hl I Hne). auto. }
+  destruct (classify id) eqn:Ec; try (eapply Hsc; eauto; fail); try (apply Htk; exact H).
+  - (* I32 *) destruct (scalar_arm KI32 d ps par t) as [s1| | | |] eqn:Es; try discriminate. cbn in H.
+    inversion H; subst. eapply Hsc; eauto.
+  - (* Open *)
+    destruct (is_key ps) eqn:Ek; cbn [negb] in H.
+    + destruct t as [|a t']; [discriminate|].
+      destruct (read_id d) as [[id2 nd]| | | |]; try discriminate. cbn in H.
+      destruct (N.eqb id2 L_CLOSE); inversion H; subst. unfold grows; cbn [s_tape s_par s_ps]. auto.
+    + inversion H; subst. unfold grows; cbn [s_tape s_par s_ps]. split; [apply ext_push; auto|].
+      split; [right; now apply ext_len|exact I].
+  - (* Close *)
+    assert (exists t2, (match ps with KeyValueSeparator => mixed_insert1 t | ObjectValue => Err E_Syntax | _ => Ok t end) = Ok t2
+                       /\ open_inv par t2 /\ ext_ok t1 t2) as (t2 & E2 & Ho2 & He2).
+    { destruct ps; try (exists t; repeat split; auto; fail).
+      - cbn in H. discriminate.
+      - cbn in Hs. destruct Hs as [_ Hs]. destruct (mixed_insert1 t) as [tm| | | |] eqn:Em; try discriminate.
+        exists tm. split; auto. split; [eapply mixed_insert1_inv; eauto|].
+        destruct Hs as (tt & x & -> & Hx & _). cbn in Hl. rewrite app_length in Hl. cbn in Hl.
+        unfold mixed_insert1 in Em. rewrite pop_snoc in Em. inversion Em; subst.
+        destruct (ext_unsnoc _ _ _ He) as [He1 Hx']; [lia|]. repeat apply ext_push; auto. exact I. }
+    rewrite E2 in H. cbn [obind] in H.
+    destruct (push_end par t2) as [[[ps' g] t']| | | |] eqn:Ep; try discriminate. cbn in H.
+    inversion H; subst. unfold grows; cbn [s_tape s_par s_ps].
+    destruct (push_end_grows _ _ _ _ _ _ Ho2 He2 Hp Ep) as (A & B & [->| ->]); repeat split; auto.
+  - (* Equal *)
+    destruct ps; try discriminate.
+    + (* ArrayValue *)
+      destruct (pop t) as [[tt last]|] eqn:Epop; [|discriminate]. apply pop_some in Epop. subst t.
+      destruct (is_array_or_end last) eqn:Ea; [discriminate|].
+      cbn in Hs. destruct Hs as [g Hg].
+      destruct (open_inv_last_in_array _ _ _ _ Ho Hg Ea) as [Hls Hlen].
+      assert (Hp0 : par <> 0) by (eapply open_inv_parent_not_zero; eauto; reflexivity).
+      assert (Hb : length t1 <= par) by (destruct Hp; [congruence|auto]).
+      destruct (ext_unsnoc _ _ _ He) as [He1 Hlast]; [lia|].
+      assert (Hg1 : nth_error tt par = Some (TArray g)) by (rewrite nth_error_app1 in Hg by lia; exact Hg).
+      pose proof (ext_nth _ _ _ _ He1 Hb Hg1) as Hsl.
+      destruct (only_empties par tt).
+      * unfold set_parent_to_object in H. rewrite Hg1 in H. cbn [obind] in H. inversion H; subst; clear H.
+        unfold grows; cbn [s_tape s_par s_ps]. split; [|split; [auto|exact I]].
+        apply ext_push; auto. apply ext_firstn; [|lia]. apply ext_upd; auto.
+      * inversion H; subst. unfold grows; cbn [s_tape s_par s_ps]. split; [|split; [auto|exact I]].
+        repeat apply ext_push; auto; exact I.
+    + (* ArrayValueMixed *) inversion H; subst. unfold grows; cbn [s_tape s_par s_ps].
+      split; [apply ext_push; auto; exact I|]. split; [auto|exact I].
+    + (* KeyValueSeparator *) inversion H; subst. unfold grows; cbn [s_tape s_par s_ps]. split; auto. split; [auto|exact I].
+    + (* OpenSecond *)
+      destruct (set_parent_to_object par t) as [tm| | | |] eqn:Es; try discriminate. cbn in H.
+      inversion H; subst. unfold grows; cbn [s_tape s_par s_ps]. split; [|split; [auto|exact I]].
+      unfold set_parent_to_object in Es. destruct (nth_error t par) as [c|] eqn:En; [|discriminate].
+      destruct c; try discriminate. inversion Es; subst.
+      assert (Hp0 : par <> 0) by (eapply open_inv_parent_not_zero; eauto; reflexivity).
+      assert (Hb : length t1 <= par) by (destruct Hp; [congruence|auto]).
+      pose proof (ext_nth _ _ _ _ He Hb En) as Hsl. apply ext_upd; auto.
+  - (* Rgb *)
+    destruct ps; try (apply Htk; exact H).
+    destruct (read_scalar KRgb d) as [[v r]| | | |] eqn:Er; try discriminate. cbn in H. inversion H; subst.
+    apply read_scalar_is_scalar in Er. unfold grows; cbn [s_tape s_par s_ps].
+    split; [apply ext_push; auto; now apply okslot_scalar|]. split; [auto|exact I].
+Qed.
+
+Lemma iter_grows : forall t1 s s', Inv s -> grows t1 s -> iter false false s = Continue s' -> grows t1 s'.
+Proof.
+  intros t1 s s' [Ho Hs] (A & B & C) H. destruct (get_split 2 (s_data s)) as [[h d]|] eqn:Eg.
+  - rewrite (iter_ref_unfold _ _ _ Eg) in H.
+    destruct (slow false d (le_word 2 h) (s_ps s) (s_par s) (s_tape s)) as [sa| | | |] eqn:E; try discriminate.
+    inversion H; subst. eapply slow_grows; eauto.
+  - unfold iter in H. rewrite Eg in H. discriminate.
+Qed.
+
+Lemma runs_grows : forall t1 s s', runs s s' -> Inv s -> grows t1 s -> grows t1 s'.
+Proof.
+  induction 1; intros HI HG; auto. apply IHruns; [eapply iter_ref_inv; eauto|eapply iter_grows; eauto].
+Qed.
+
+(* the tape at a top-level key position is a prefix of every later tape of the run *)
+Theorem top_tape_prefix : forall D s s', runs (init D) s -> top s -> runs s s' ->
+  exists rest, s_tape s' = s_tape s ++ rest.
+Proof.
+  intros D s s' H [Hp Hk] H'. assert (HI : Inv s) by (eapply runs_inv; eauto; apply Inv_init).
+  assert (HG : grows (s_tape s) s).
+  { split; [exists []; split; [now rewrite app_nil_r|constructor]|]. split; [now left|]. rewrite Hk. exact I. }
+  destruct (runs_grows _ _ _ H' HI HG) as ((ext & E & _) & _). eauto.
+Qed.
+
+(* the full statement for the reference parser *)
+Theorem trunc_bin_ref_prefix : forall D F r, parse_ref D = Ok F -> r <= length D ->
+  (exists e, parse_ref (chop r D) = Err e) \/
+  (exists s, runs (init D) s /\ top s /\ r <= length (s_data s) <= r + 1 /\
+             parse_ref (chop r D) = Ok (s_tape s) /\ exists rest, F = s_tape s ++ rest).
+Proof.
+  intros D F r HF Hr. destruct (trunc_bin_ref D F r HF Hr) as [?|(s & sn & A & B & C & Ht & Hl & Hp)]; [now left|right].
+  exists s. repeat split; auto; try apply Ht; try lia.
+  apply iter_done_ok in C. destruct C as (_ & _ & _ & <-). eapply top_tape_prefix; eauto.
+Qed.
